@@ -48,6 +48,7 @@ pub struct SimStream {
     /// Interrupted reads/writes: probability 1/den, 0 = never.
     pub eintr_den: u64,
     eintr_run: u32,
+    eintr_left: u32,
     /// Short writes drawn from the tape.
     pub short_writes: bool,
     /// Hard error at this I/O call index (reads and writes counted together).
@@ -78,6 +79,7 @@ impl SimStream {
             frag_left: 0,
             eintr_den: 0,
             eintr_run: 0,
+            eintr_left: 0,
             short_writes: false,
             fail_at: None,
             zero_at: None,
@@ -93,15 +95,39 @@ impl SimStream {
     }
 
     fn maybe_eintr(&mut self) -> bool {
-        if self.eintr_den > 0 && self.eintr_run < 3 && self.cx.chance(1, self.eintr_den) {
-            self.eintr_run += 1;
-            self.cx.fault("eintr");
-            true
-        } else {
-            self.eintr_run = 0;
-            false
-        }
+        eintr_burst(&self.cx, self.eintr_den, &mut self.eintr_run, &mut self.eintr_left)
     }
+}
+
+/// Interrupted calls come in bursts: usually 1-3 in a row, sometimes up to 12, rarely thousands
+/// ("however often it reports an interrupted read"). Returns true if this call is interrupted.
+pub fn eintr_burst(cx: &Cx, den: u64, run: &mut u32, left: &mut u32) -> bool {
+    if *left > 0 {
+        *left -= 1;
+        *run += 1;
+        if *run == 4 {
+            cx.probe("eintr_4_or_more_in_a_row");
+        }
+        if *run == 1025 {
+            cx.probe("eintr_more_than_1024_in_a_row");
+        }
+        cx.fault("eintr");
+        return true;
+    }
+    *run = 0;
+    if den > 0 && cx.chance(1, den) {
+        // this call is interrupted, and maybe a few / many of the following ones
+        *left = match cx.draw(32) {
+            0..=19 => 0,
+            20..=27 => cx.draw(3) as u32 + 1,
+            28..=30 => cx.draw(10) as u32 + 3,
+            _ => 1100 + cx.draw(3000) as u32,
+        };
+        *run = 1;
+        cx.fault("eintr");
+        return true;
+    }
+    false
 }
 
 impl Read for SimStream {
@@ -233,6 +259,9 @@ pub struct SimSettings {
     /// `set_baud_rate` fails on this settings object.
     pub fail_set_baud: bool,
     pub fail_kind: u8,
+    /// The device cannot report its current speed (`baud_rate()` is None), e.g. a termios port
+    /// whose input and output speeds differ. The speed itself is still whatever `baud` says.
+    pub baud_unreported: bool,
 }
 
 /// Hashable mirror of `serial_core::BaudRate`.
@@ -252,7 +281,7 @@ impl SimSettings {
 
 impl SerialPortSettings for SimSettings {
     fn baud_rate(&self) -> Option<BaudRate> {
-        Some(BaudRate::from_speed(self.baud.0))
+        if self.baud_unreported { None } else { Some(BaudRate::from_speed(self.baud.0)) }
     }
     fn char_size(&self) -> Option<CharSize> {
         Some(CHAR_SIZES[self.char_size as usize])
@@ -271,6 +300,7 @@ impl SerialPortSettings for SimSettings {
             return Err(serial_core::Error::new(ERR_KINDS[self.fail_kind as usize], "simulated: baud rate not supported"));
         }
         self.baud = BaudRate2(baud_rate.speed());
+        self.baud_unreported = false;
         Ok(())
     }
     fn set_char_size(&mut self, char_size: CharSize) {
@@ -318,12 +348,13 @@ impl Device {
         Device { settings, timeout: Duration::from_millis(1), fail: CfgFail::None, fail_kind: 0, calls: Vec::new() }
     }
     pub fn default_odd() -> Self {
-        Device::new(SimSettings { baud: BaudRate2(110), char_size: 2, parity: 2, stop_bits: 1, flow: 1, fail_set_baud: false, fail_kind: 0 })
+        Device::new(SimSettings { baud: BaudRate2(110), char_size: 2, parity: 2, stop_bits: 1, flow: 1, fail_set_baud: false, fail_kind: 0, baud_unreported: false })
     }
 }
 
 /// Error kinds a refusing device may report.
-pub const ERR_KINDS: [serial_core::ErrorKind; 6] = [
+pub const ERR_KINDS: [serial_core::ErrorKind; 7] = [
+    serial_core::ErrorKind::Io(io::ErrorKind::Interrupted),
     serial_core::ErrorKind::NoDevice,
     serial_core::ErrorKind::InvalidInput,
     serial_core::ErrorKind::Io(io::ErrorKind::PermissionDenied),
@@ -461,6 +492,7 @@ pub struct ScriptWire {
     pub frag: bool,
     pub eintr_den: u64,
     eintr_run: u32,
+    eintr_left: u32,
     pub short_writes: bool,
     /// Hard failure at this port operation index.
     pub fail_at: Option<usize>,
@@ -472,6 +504,8 @@ pub struct ScriptWire {
     pub real_delay_next_read: Option<Duration>,
     /// Simulated latency added to the clock by every successful read.
     pub sim_read_latency_ns: u64,
+    /// The next write blocks for this long in REAL time (a UART draining its FIFO), once.
+    pub real_delay_next_write: Option<Duration>,
 }
 
 /// A `ScriptWire` that stays reachable after the port has been moved into the code under test.
@@ -512,24 +546,19 @@ impl ScriptWire {
             frag: false,
             eintr_den: 0,
             eintr_run: 0,
+            eintr_left: 0,
             short_writes: false,
             fail_at: None,
             op_index: 0,
             real: Vec::new(),
             real_delay_next_read: None,
             sim_read_latency_ns: 0,
+            real_delay_next_write: None,
         }
     }
 
     fn maybe_eintr(&mut self) -> bool {
-        if self.eintr_den > 0 && self.eintr_run < 3 && self.cx.chance(1, self.eintr_den) {
-            self.eintr_run += 1;
-            self.cx.fault("eintr");
-            true
-        } else {
-            self.eintr_run = 0;
-            false
-        }
+        eintr_burst(&self.cx, self.eintr_den, &mut self.eintr_run, &mut self.eintr_left)
     }
 }
 
@@ -601,6 +630,9 @@ impl Wire for ScriptWire {
             } else {
                 buf.len()
             };
+            if let Some(d) = self.real_delay_next_write.take() {
+                std::thread::sleep(d);
+            }
             self.written.extend_from_slice(&buf[..n]);
             Ok(n)
         };
@@ -628,19 +660,13 @@ pub struct PipeWire {
     pub frag: bool,
     pub eintr_den: u64,
     pub eintr_run: u32,
+    pub eintr_left: u32,
     pub short_writes: bool,
 }
 
 impl PipeWire {
     fn maybe_eintr(&mut self) -> bool {
-        if self.eintr_den > 0 && self.eintr_run < 3 && self.cx.chance(1, self.eintr_den) {
-            self.eintr_run += 1;
-            self.cx.fault("eintr");
-            true
-        } else {
-            self.eintr_run = 0;
-            false
-        }
+        eintr_burst(&self.cx, self.eintr_den, &mut self.eintr_run, &mut self.eintr_left)
     }
 }
 
